@@ -131,7 +131,10 @@ def gen_manager(rng, tier):
         known = set(names.values())
         frags = [f for f in frags if f not in known]
         bad = {"kind": rng.choice(kinds), "target": target, "other": without_end[0] if without_end else None,
-               "fragment": rng.choice(frags)}
+               "fragment": rng.choice(frags),
+               # after the rejected call: (possibly) one more species gets its end molecule, then a VALID call is made on the
+               # same manager
+               "retry": rng.random() < 0.6, "late_species": rng.random() < 0.6}
     return {"mode": "manager", "species": species, "text": text, "present": present, "with_end": with_end, "ends": ends,
             "restr": restr, "deform": deform, "ignore": ignore, "use": use, "bad": bad,
             "parse_restrictions": rng.random() < 0.7,
@@ -437,6 +440,44 @@ def exec_guess_protein(trace, ctx):
     ctx.sig.append((tuple(trace["lens1"]), tuple(trace["lens2"])))
 
 
+def _retry_after_rejection(trace, ctx, manager, Alignment, species, names_with_end):
+    """The same manager after a rejected call: optionally one more species becomes alignable, then a valid call with options
+    for every alignable species; each option must reach its own species' alignment."""
+    names_with_end = list(names_with_end)
+    late = [s_ for s_ in trace["present"] if s_ not in trace["with_end"]]
+    if late and trace["bad"].get("late_species"):
+        s_ = late[0]
+        e = gen.mol_spec(__import__("random").Random(s_ + 17), species[s_]["name"], 3, p_hydrogen=0.0)
+        manager.add_end_molecule(gen.make_molecule(e))
+        names_with_end.append(species[s_]["name"])
+        ctx.probe("end_molecule_added_after_a_rejected_call")
+    restr = {nm: [(0, 0)] for nm in names_with_end}
+    deform = {nm: (0, 1) if k_ % 2 else (0,) for k_, nm in enumerate(names_with_end)}
+    ignore = {nm: bool(k_ % 2) for k_, nm in enumerate(names_with_end)}
+    calls = []
+
+    def rec(self, restrictions=None, deformation_types=None, ignore_hydrogens=True, *a, **kw):
+        calls.append((self, restrictions, deformation_types, ignore_hydrogens))
+    with patched(Alignment, "align_molecules", rec):
+        try:
+            manager.align_molecules(restr, deform, ignore)
+        except Exception as e:
+            ctx.violate(P, "manager-raised", f"a valid call AFTER a rejected one raised {type(e).__name__}: {e} (alignable species: "
+                                             f"{sorted(names_with_end)})", key="after-rejection")
+            return
+    got = {}
+    for (self_ali, r, dfm, ign) in calls:
+        owner = [n for n, a in manager.molecule_correspondence.items() if a is self_ali]
+        if len(owner) != 1:
+            ctx.violate(P, "unknown-alignment-called", "an alignment that is not one of the manager's was run (after a rejected call)")
+            return
+        got[owner[0]] = (None if r is None else [tuple(x) for x in r], None if dfm is None else tuple(dfm), ign)
+    want = {nm: ([(0, 0)], deform[nm], ignore[nm]) for nm in names_with_end}
+    if got != want:
+        ctx.violate(P, "aligned-species", f"after a rejected call the valid call reached {got}; expected {want}", key="after-rejection")
+    ctx.probe("valid_call_after_rejected_call")
+
+
 def exec_manager(trace, ctx):
     from gaddlemaps import Manager, Alignment
     from gaddlemaps.components import System
@@ -552,6 +593,8 @@ def exec_manager(trace, ctx):
         else:
             ctx.fault("malformed_option_rejected:" + bad["kind"])
         ctx.op("manager", "bad:" + bad["kind"])
+        if raised is not None and not calls and bad.get("retry"):
+            _retry_after_rejection(trace, ctx, manager, Alignment, species, names_with_end)
         return
     if bad and not pr:
         # restrictions are declared as already parsed: only their validation is skipped
